@@ -647,6 +647,11 @@ def check_run(col, name, entry, X, kind, rank, k, seed, opts, rec, light=False):
             col.add(lambda P, G_=G_, rep=rep: f"(KHooi {P.t(X)} {P.t(G_)} {P.num(rep)})",
                     dict(inputs=inputs, what="HOOI shortcut |norm^2 - norm(core)^2| vs reported value", entry=entry), expect_fail=not ok)
             chk.count(key=(name, X.shape, kind, k, "hooi"), nontrivial=True)
+            # ... and the two hypotheses of C06_hooi_error_identity on the returned decomposition: orthonormal columns, core = X x U^T
+            fs_ = rec.final["fs"]
+            col.add(lambda P, G_=G_, fs_=fs_: f"(KHooiHyp {P.t(X)} {P.t(G_)} {P.ts(fs_)})",
+                    dict(inputs=inputs, what="HOOI: hypotheses of C06_hooi_error_identity (orthonormal factor columns, core = X x U^T) on the returned decomposition", entry=entry))
+            chk.count(key=(name, X.shape, kind, k, "hooi_hyp"), nontrivial=True)
         if not ok:
             chk.finding(entry, inputs, f"{name}: last reported error (squared: {theirs!r}) is not the error of the returned decomposition "
                         f"(squared, recomputed: {mine!r})", "C06_last_report_is_error_of_returned", observed=theirs, expected=mine)
@@ -702,7 +707,10 @@ def error_calc_cases(col, tier, rng):
                         dict(inputs=dict(inputs, branch="mttkrp shortcut, implementation's MTTKRP as data"), what="error_calc", entry="tensorly.decomposition._cp.error_calc"))
                 col.add(lambda P, X=X, R=R, w=w, fs=fs, n=n, rep=rep: f"(KCPfast {P.t(X)} {C.nat(R)} {P.opt_w(w)} {P.ts(fs)} {C.nat(n)} {P.num(rep)})",
                         dict(inputs=dict(inputs, branch="mttkrp shortcut, model's MTTKRP"), what="error_calc", entry="tensorly.decomposition._cp.error_calc"))
-                chk.count(key=("error_calc", shape, R, integer, "shortcut"), n=2)
+                col.add(lambda P, X=X, R=R, w=w, fs=fs, M=M, rep=rep: f"(KErrCalcFull {P.t(X)} {C.nat(R)} {P.opt_w(w)} {P.ts(fs)} None None (Some {P.t(M)}) {P.num(rep)})",
+                        dict(inputs=dict(inputs, branch="all arguments, the model selects the branch (shortcut expected)", mttkrp=M), what="error_calc (branch selected by the model)",
+                             entry="tensorly.decomposition._cp.error_calc"))
+                chk.count(key=("error_calc", shape, R, integer, "shortcut"), n=3)
                 mine = rel2(X, cp_dense(w, fs))
                 if not math.isfinite(rep) or not close(mine, rep * rep):
                     chk.finding("tensorly.decomposition._cp.error_calc", dict(inputs, mttkrp=M, branch="shortcut"),
@@ -726,7 +734,11 @@ def error_calc_cases(col, tier, rng):
                 rep = float(out[0]) / float(out[2])
                 col.add(lambda P, X=X, R=R, w=w, fs=fs, S=S, msk=msk, rep=rep: f"(KCP {P.t(X)} {C.nat(R)} {P.opt_w(w)} {P.ts(fs)} {P.opt_t(S)} {P.opt_t(msk)} {P.num(rep)})",
                         dict(inputs=dict(inputs, sparsity=sparsity, mask=msk, branch="explicit"), what="error_calc", entry="tensorly.decomposition._cp.error_calc"))
-                chk.count(key=("error_calc", shape, R, integer, sparsity, msk is not None, with_m))
+                col.add(lambda P, X=X, R=R, w=w, fs=fs, sparsity=sparsity, msk=msk, Mx=(M if with_m else None), rep=rep:
+                        f"(KErrCalcFull {P.t(X)} {C.nat(R)} {P.opt_w(w)} {P.ts(fs)} {optnat(sparsity)} {P.opt_t(msk)} {P.opt_t(Mx)} {P.num(rep)})",
+                        dict(inputs=dict(inputs, sparsity=sparsity, mask=msk, with_mttkrp=with_m, branch="all arguments, the model selects the branch and computes the sparse component"),
+                             what="error_calc (branch selected by the model)", entry="tensorly.decomposition._cp.error_calc"))
+                chk.count(key=("error_calc", shape, R, integer, sparsity, msk is not None, with_m), n=2)
                 mine = rel2(X, L, S, msk)
                 bad = not math.isfinite(rep) or not close(mine, rep * rep)
                 if msk is not None and not bad:
@@ -1192,6 +1204,13 @@ def run(chk):
                 col.add(lambda P, lit_len=lit_len: lit_len, dict(inputs=describe(name, entry, X, kind, rank, k, seed, o), what="PARAFAC2 skeleton: number of reported values",
                                                                   entry=entry))
                 chk.count(key=(name, "p2len", k), nontrivial=k > 6)
+            if name.startswith(("tucker", "partial_tucker", "nn_tucker", "cmtf", "randomised")) and "_tol" not in o and rec.errors is not None:
+                # one-value-per-iteration loops, observable projection of Model/Errors.v:s_loop: number of recorded values (callback stop included)
+                stop_at = o.get("_stop_at") if o.get("_cb") else None
+                lit_s = f"(KSLoop {C.nat(k)} {optnat(stop_at)} {C.nat(len(rec.errors))})"
+                col.add(lambda P, lit_s=lit_s: lit_s, dict(inputs=describe(name, entry, X, kind, rank, k, seed, o), what="one-value-per-iteration loop skeleton: number of recorded values",
+                                                          entry=entry))
+                chk.count(key=(name, "sloop_len", k), nontrivial=True)
             if "_tol" in o:
                 chk.hist("stopped_by_convergence", f"{name}: {len(series(rec)) < k}")
             if name in LS_CONFIGS and (k - 1) > 5 and (k - 1) % 2 == 0 and rec.ls:
